@@ -509,6 +509,8 @@ pub mod fasta {
                 (if self.base() + self.b().len() <= self.f().len() { self.f().len() - self.base() - self.b().len() } else { 0 }),
 //@closure 0 params="b: &u8" ret="(r: bool)"
             ensures r == (*b == 10u8)
+//@at depth=2 kw=let nth=0 expect="let mut pos = 0;"
+            let ghost mut g_last: int = 0;
 //@loop 1 r8=vx_sp
             invariant
                 [C01,C03,C04,C05,C06,C14|fasta.first_byte.inner.frame] self.wf0() && self.f() == old(self).f() && self.buf_policy == old(self).buf_policy
@@ -517,31 +519,33 @@ pub mod fasta {
                     && self.buf_reader.errs() == old(self).buf_reader.errs() && self.buf_reader.cap() >= 2 && self.filled()
                     && self.b().len() > 0 && self.position.byte == self.base() && self.base() + self.b().len() <= self.f().len(),
                 !split_done(&vx_sp) ==> line_num <= self.base() + pos,
-                split_done(&vx_sp) ==> line_num <= self.base() + self.b().len() - last_line_len + 1 && 1 <= line_num,
+                split_done(&vx_sp) ==> line_num <= self.base() + self.b().len() - g_last + 1 && 1 <= line_num,
                 decides_eq(split_pred(&vx_sp), 10u8),
+                #if_local(last_line_len) !split_done(&vx_sp) ==> pos == 0 || last_line_len == g_last,
+                #if_local(last_line_len) split_done(&vx_sp) ==> last_line_len == g_last,
                 !split_done(&vx_sp) ==> pos <= self.b().len() && split_rest(&vx_sp) == self.b().subrange(pos as int, self.b().len() as int),
-                split_done(&vx_sp) ==> pos == self.b().len() + 1 && last_line_len <= self.b().len(),
+                split_done(&vx_sp) ==> pos == self.b().len() + 1 && g_last <= self.b().len(),
                 [C01,C03,C04|fasta.first_byte.inner.skipped_blank_lines] ({
                     &&& (!split_done(&vx_sp) ==> first_nonblank(self.f(), 0) == first_nonblank(self.f(), self.base() + pos))
                     &&& (split_done(&vx_sp) ==> ({
-                            let lp = self.b().len() - last_line_len;
+                            let lp = self.b().len() - g_last;
                             &&& first_nonblank(self.f(), 0) == first_nonblank(self.f(), self.base() + lp)
                             &&& nl(self.b(), lp) == self.b().len() && blank(self.b().subrange(lp, self.b().len() as int))
                         }))
                 }),
                 [C03,C05,C17|fasta.first_byte.inner.line_count] ({
                     &&& (!split_done(&vx_sp) ==> line_num == count_lf(self.f(), self.base() + pos))
-                    &&& (split_done(&vx_sp) ==> line_num == count_lf(self.f(), self.base() + self.b().len() - last_line_len) + 1)
+                    &&& (split_done(&vx_sp) ==> line_num == count_lf(self.f(), self.base() + self.b().len() - g_last) + 1)
                 }),
             ensures
-                pos == self.b().len() + 1 && last_line_len <= self.b().len() && 1 <= line_num
-                    && line_num <= self.base() + self.b().len() - last_line_len + 1 && self.base() + self.b().len() <= self.f().len(),
+                pos == self.b().len() + 1 && g_last <= self.b().len() && 1 <= line_num
+                    && line_num <= self.base() + self.b().len() - g_last + 1 && self.base() + self.b().len() <= self.f().len(),
                 [C01,C03,C04|fasta.first_byte.inner.exit] ({
-                            let lp = self.b().len() - last_line_len;
+                            let lp = self.b().len() - g_last;
                             &&& first_nonblank(self.f(), 0) == first_nonblank(self.f(), self.base() + lp)
                             &&& nl(self.b(), lp) == self.b().len() && blank(self.b().subrange(lp, self.b().len() as int))
                         }),
-                [C03,C05,C17|fasta.first_byte.inner.exit_line_count] line_num == count_lf(self.f(), self.base() + self.b().len() - last_line_len) + 1,
+                [C03,C05,C17|fasta.first_byte.inner.exit_line_count] line_num == count_lf(self.f(), self.base() + self.b().len() - g_last) + 1,
             decreases (if split_done(&vx_sp) { 0int } else { split_rest(&vx_sp).len() as int + 1 }),
 //---pre
             let ghost sr0 = split_rest(&vx_sp);
@@ -568,11 +572,12 @@ pub mod fasta {
                         if blank(line@) { lemma_fnb_skip(ff, a + pos0); }
                     }
                     if !blank(line@) { lemma_fnb_here(ff, a + pos0, k); }
+                    g_last = k;
                 }
 //@after_loop 1
             proof {
                 let (ff, a, bb) = (self.f(), self.base(), self.b());
-                let lp = bb.len() - last_line_len;
+                let lp = bb.len() - g_last;
                 lemma_nl_bounds(bb, lp);
                 assert(bb.subrange(lp, bb.len() as int).subrange(0, (bb.len() - lp) as int) =~= bb.subrange(lp, bb.len() as int));
             }
@@ -750,6 +755,7 @@ pub mod fasta {
                 && (old(self).state == State::Finished || (old(self).state == State::New
                     && (old(self).fresh() ==> first_nonblank(old(self).f(), 0) == old(self).f().len()))),
             [C01,C04,C20|fasta.next.end_is_sticky] old(self).state == State::Finished ==> r is None,
+            [C14|fasta.next.source_errors_are_not_swallowed] (r is None || r matches Some(Ok(_))) ==> final(self).buf_reader.errs() == old(self).buf_reader.errs(),
             [C01,C03,C04,C06,C12|fasta.next.record] r matches Some(Ok(rec)) ==> final(self).buf_reader.errs() == old(self).buf_reader.errs()
                 && old(self).state != State::Finished
                 && rec.buffer@ == final(self).b() && *rec.buf_pos == final(self).buf_pos && rec.buf_pos.rwf(rec.buffer@)
@@ -1596,6 +1602,7 @@ trait RecordD {
             [C03,C17|fasta.read_set.err_start] r matches Some(Err(e)) ==> (e matches Error::InvalidStart { line, found } ==> old(self).state == State::New
                         && ({ let s0 = first_nonblank(old(self).f(), 0);
                             s0 < old(self).f().len() && old(self).f()[s0] != 62u8 && found == old(self).f()[s0] && line == true_line(old(self).f(), s0) })),
+            [C14|fasta.read_set.source_errors_are_not_swallowed] (r is None || r matches Some(Ok(_))) ==> final(self).buf_reader.errs() == old(self).buf_reader.errs(),
             [C09|fasta.read_set.capacity_monotone] final(self).buf_reader.cap() >= old(self).buf_reader.cap(),
 //@body_start
         proof {
@@ -1626,6 +1633,7 @@ trait RecordD {
                 [C04|fasta.read_set.inv.below_requested_count] n_records matches Some(m) ==> rset.n() < m,
                 [C04,C06|fasta.read_set.inv.no_compaction_once_a_record_is_held] self.state == State::Incomplete && rset.n() > 0 ==> !is_new,
             invariant
+                [C14|fasta.read_set.inv.no_source_error_so_far] self.buf_reader.errs() == old(self).buf_reader.errs(),
                 [C03,C04,C05,C06|fasta.read_set.inv.state] self.rs_a(old(self), rset, n_records),
                 [C03,C04,C06|fasta.read_set.inv.positions_valid] self.rs_b(rset),
                 [C03,C04|fasta.read_set.inv.records_are_the_next_k] self.rs_c(old(self), rset),
